@@ -47,6 +47,17 @@ impl<'a> ChangeCursor<'a> {
         Ok(vals)
     }
 
+    /// A change record must be consumed exactly: trailing bytes mean a damaged length field.
+    pub fn expect_end(&self) -> Result<()> {
+        if self.pos != self.bytes.len() {
+            return Err(Error::WrongLength {
+                received: self.bytes.len(),
+                expected: self.pos,
+            });
+        }
+        Ok(())
+    }
+
     fn check_remaining(&self, len: usize) -> Result<()> {
         let end = self.pos.checked_add(len).ok_or(Error::Overflow)?;
         if end > self.bytes.len() {
